@@ -133,6 +133,8 @@ func checkC09(p *Prog, r *Report) {
 	r.rule("C09.L5", "every function that writes the encoder's next id into a header advances it by one modulo paws afterwards; the OOB sealer writes the reserved id and does not advance", 3)
 	r.rule("C09.L6", "in encode: one sealData per call; when the group is complete every path runs exactly one of {seal every parity shard, skipParity()}, the parity slice is shardCache[dataShards:], and the group counters are reset", 3)
 	r.rule("C09.L7", "every BlockCrypt.Encrypt / aeadCrypt.Seal in the output path (postProcess and the helpers it calls) is preceded on every path by fillRand on the nonce prefix of the same buffer, with no other encryption of that buffer in between", 3)
+	r.rule("C09.L12", "parity is the Reed-Solomon code every decoder expects: all construction sites of the codec (encoder, decoder, retune) pass the same options (= C07.F11) — an option on one side only (the XOR matrix for one parity shard) changes the parity bytes and nothing else", 1)
+	r.rule("C09.L13", "every datagram that leaves under a cipher carries a fresh nonce: in the transmit path each arm of the cipher dispatch other than 'no cipher' fills the nonce prefix of the packet, and inside its loop over the parity packets that of each parity packet — an arm that only checksums (a pass-through cipher) sends stale pool bytes, or zeros, in the nonce field", 2)
 	r.rule("C09.L11", "the frame is produced by one encryptor at a time: the CFB feedback registers of a cipher object (shared by all sessions of a listener, or by sessions given the same BlockCrypt) are read and written under its mutex only (= C14.L1 for blockCrypt.encbuf/decbuf) — interleaved encryptions leave datagrams whose checksum field does not match their bytes under independent decryption", 4)
 	r.rule("C09.L10", "every datagram is handed to the socket once: a batch write that may accept fewer messages than offered is continued at the first message not yet accepted (the queue is re-sliced by the returned count, or the next call starts at the running count) — restarting at message 0 emits the head of the batch again, byte for byte, nonce included", 1)
 	r.rule("C09.L9", "parity is computed over the zero-padded size-prefixed payloads: size prefix written before the copy into the group, tails cleared to maxSize, shards cut [payloadOffset:maxSize], maxSize per group (= C07.F2 encode side, C07.F6)", 6)
@@ -186,6 +188,8 @@ func checkC09(p *Prog, r *Report) {
 	checkNonceBeforeEncrypt(p, r)
 	checkEntropyAdvance(p, r)
 	checkBatchWriteContinues(p, r)
+	delegate(p, r, "C07", checkC07, "C07.F11", "C09.L12")
+	checkEveryCipherArmFillsNonce(p, r)
 	{
 		key := "delegate:C14:" + r.curCfg
 		sub, _ := p.memo[key].(*Report)
@@ -1326,6 +1330,16 @@ func checkBatchWriteContinues(p *Prog, r *Report) {
 			arg := p.Term(call.Args[0])
 			var qv types.Object
 			var kv types.Object // running offset, for the q[k:] form
+			if arg.Op == "var" {
+				// pending := q[off:] taken afresh in every iteration stands for q[off:]
+				if av, isV := arg.Obj.(*types.Var); isV {
+					if as2 := p.Assignments(rootFuncInfo(fi), av); len(as2) == 1 && as2[0].Rhs != nil && nodeWithin(p, as2[0].Node, enclosingLoop(p, call)) {
+						if rt := p.Term(as2[0].Rhs); rt.Op == "slice" && rt.Args[0].Op == "var" && rt.Args[0].Obj != types.Object(av) && rt.Args[1] != nil && rt.Args[1].Op == "var" && rt.Args[2] == nil {
+							arg = rt
+						}
+					}
+				}
+			}
 			switch {
 			case arg.Op == "var":
 				qv = arg.Obj
@@ -1369,5 +1383,109 @@ func checkBatchWriteContinues(p *Prog, r *Report) {
 		r.bad("C09.L10", "transmit path", "-", "batch write", "no WriteBatch loop found in a linux configuration", "")
 	} else if n == 0 {
 		r.ok("C09.L10", "transmit path", "-", "batch write", "this configuration has no batch transmit path (one WriteTo per datagram)")
+	}
+}
+
+// checkEveryCipherArmFillsNonce: C09.L13.
+func checkEveryCipherArmFillsNonce(p *Prog, r *Report) {
+	pp := p.FuncByName("(*UDPSession).postProcess")
+	fBlock := p.Field("UDPSession", "block")
+	fill := p.Func("fillRand")
+	// fillRand calls below a node, counting through unexported helpers called there (one level)
+	var countFill func(n ast.Node, depth int) int
+	countFill = func(n ast.Node, depth int) int {
+		k := 0
+		ast.Inspect(n, func(x ast.Node) bool {
+			if _, isLit := x.(*ast.FuncLit); isLit {
+				return false
+			}
+			call, ok := x.(*ast.CallExpr)
+			if !ok {
+				return true
+			}
+			f := p.Callee(call)
+			if f == fill {
+				k++
+			} else if f != nil && depth == 0 && f.Pkg() == p.Types && !f.Exported() {
+				if h := p.FuncOf(f); h != nil && h.Body != nil {
+					k += countFill(h.Body, 1)
+				}
+			}
+			return true
+		})
+		return k
+	}
+	n := 0
+	check := func(fi *FuncInfo) {
+		ast.Inspect(fi.Body, func(x ast.Node) bool {
+			ts, ok := x.(*ast.TypeSwitchStmt)
+			if !ok {
+				return true
+			}
+			// the switch is over the session's cipher
+			var tag ast.Expr
+			switch a := ts.Assign.(type) {
+			case *ast.AssignStmt:
+				if ta, isTA := ast.Unparen(a.Rhs[0]).(*ast.TypeAssertExpr); isTA {
+					tag = ta.X
+				}
+			case *ast.ExprStmt:
+				if ta, isTA := ast.Unparen(a.X).(*ast.TypeAssertExpr); isTA {
+					tag = ta.X
+				}
+			}
+			if tag == nil {
+				return true
+			}
+			if t := p.Term(tag); !(t.Op == "fld" && t.Obj == types.Object(fBlock)) {
+				return true
+			}
+			for _, cl := range ts.Body.List {
+				cc := cl.(*ast.CaseClause)
+				isNil := false
+				for _, e := range cc.List {
+					if id, isId := ast.Unparen(e).(*ast.Ident); isId && id.Name == "nil" {
+						isNil = true
+					}
+				}
+				if isNil && len(cc.List) == 1 {
+					continue
+				}
+				n++
+				name := "default"
+				if len(cc.List) > 0 {
+					name = "case " + exprString(cc.List[0])
+				}
+				outside, inLoop, loops := 0, 0, 0
+				for _, st := range cc.Body {
+					if rs, isR := st.(*ast.RangeStmt); isR {
+						loops++
+						inLoop += countFill(rs.Body, 0)
+						continue
+					}
+					outside += countFill(st, 0)
+				}
+				ok := outside >= 1 && (loops == 0 || inLoop >= 1)
+				r.check(ok, "C09.L13", fi.Name, p.Pos(cc), "cipher arm "+name+" of the transmit path", "fillRand for the packet, and for each parity packet in the arm's loop", fmt.Sprintf("this arm fills the nonce of the packet: %v; of the parity packets in its loop: %v — the datagrams it sends carry whatever the pooled buffer held before (zeros in a fresh process, fragments of earlier packets later) where the nonce belongs: identical prefixes on the wire, and for ciphers that depend on it no per-packet randomisation", outside >= 1, loops == 0 || inLoop >= 1))
+			}
+			return true
+		})
+	}
+	check(pp)
+	if n == 0 {
+		// the dispatch may live in a helper that postProcess calls
+		inspectBody(pp, func(x ast.Node) bool {
+			if call, ok := x.(*ast.CallExpr); ok {
+				if f := p.Callee(call); f != nil && f.Pkg() == p.Types && !f.Exported() {
+					if h := p.FuncOf(f); h != nil && h.Body != nil {
+						check(h)
+					}
+				}
+			}
+			return true
+		})
+	}
+	if n == 0 {
+		r.bad("C09.L13", pp.Name, p.Pos(pp.Node), "cipher dispatch of the transmit path", "no type switch over the session's cipher found in postProcess (or the helpers it calls)", "")
 	}
 }
